@@ -10,7 +10,9 @@ import (
 	"path/filepath"
 	"sort"
 	"strings"
+	"sync/atomic"
 
+	"github.com/MichaelMure/git-bug/entities/bug"
 	"github.com/MichaelMure/git-bug/entities/identity"
 	"github.com/MichaelMure/git-bug/entity"
 
@@ -31,16 +33,29 @@ type c17Env struct {
 	gitDir string
 
 	snap     *c17Snap
-	opsMemo  map[string][]string // head commit -> ordered op ids
+	opsMemo  map[string][]string    // head commit -> ordered op ids
+	infoMemo map[string]*c17BugInfo // head commit -> title, labels, comments (read from git, not via the cache)
 	tokenSeq int
+
+	g        *c17Guard // journal of the case in flight (nil: no watchdog)
+	light    bool      // snapshots must not make the cache load a bug (aftermath cases: the probes do the loading)
+	opened   string    // how the cache in use was obtained: built | loaded-from-disk
+	suspects []c17Case // requests served by this cache since (and including) its last accepted mutation
 }
+
+// c17MinBugs is the least number of bugs of the served repository; c17SameFirstChar of them share their
+// first id character (a one-character prefix is ambiguous among that many), two share three characters.
+const (
+	c17MinBugs       = 12
+	c17SameFirstChar = 7
+)
 
 func c17BuildEnv(seed int64) (*c17Env, error) {
 	w, err := world.New(1)
 	if err != nil {
 		return nil, err
 	}
-	e := &c17Env{w: w, rep: w.Replicas[0], opsMemo: map[string][]string{}}
+	e := &c17Env{w: w, rep: w.Replicas[0], opsMemo: map[string][]string{}, infoMemo: map[string]*c17BugInfo{}, opened: "built"}
 	fail := func(err error) (*c17Env, error) { w.Close(); return nil, err }
 	if e.user, err = e.rep.NewAuthor("c17-user"); err != nil {
 		return fail(err)
@@ -67,8 +82,29 @@ func c17BuildEnv(seed int64) (*c17Env, error) {
 		}
 		return best
 	}
-	for k := 0; k < 24 && (k < 6 || shared() == ""); k++ {
-		b, err := w.NewBug(e.rep, k, fmt.Sprintf("seed bug %d", k), fmt.Sprintf("seed message %d", k))
+	// Bug ids are hashes over a random nonce: a bug whose id starts with a wanted prefix is found by creating
+	// candidates in memory (nothing is stored) until one fits, and only that one is committed.
+	create := func(k int, want string) (*bug.Bug, error) {
+		author := e.rep.Authors[k%len(e.rep.Authors)]
+		for try := 0; ; try++ {
+			b, _, err := bug.Create(author, w.Now(), fmt.Sprintf("seed bug %d", k), fmt.Sprintf("seed message %d", k), nil, nil)
+			if err != nil {
+				return nil, err
+			}
+			if strings.HasPrefix(b.Id().String(), want) || try > 200000 {
+				return b, b.Commit(e.rep.Repo)
+			}
+		}
+	}
+	for k := 0; k < c17MinBugs; k++ {
+		want := ""
+		switch {
+		case k >= 1 && k < c17SameFirstChar-1:
+			want = ids[0][:1]
+		case k == c17SameFirstChar-1:
+			want = ids[0][:3]
+		}
+		b, err := create(k, want)
 		if err != nil {
 			return fail(err)
 		}
@@ -124,6 +160,44 @@ func (e *c17Env) Close() {
 	e.w.Close()
 }
 
+// reopen closes the cache and the repository and opens them again the way a new `git-bug webui` process does:
+// the cache is loaded from its on-disk files (excerpts only), no bug is in memory until somebody asks for it.
+func (e *c17Env) reopen() error {
+	e.h.Close() // MultiRepoCache.Close: writes nothing new, releases the lock file and the repository
+	n, err := world.OpenRepo(e.rep.Dir, e.rep.KR, bug.ClockLoader)
+	if err != nil {
+		return fmt.Errorf("re-opening the repository: %w", err)
+	}
+	e.rep.Repo, e.rep.Tested = n.Repo, n.Tested
+	served := e.requests()
+	if e.h, err = NewGQLHarness(e.rep, e.user.Id()); err != nil {
+		return fmt.Errorf("re-opening the cache: %w", err)
+	}
+	e.h.Requests = served
+	e.opened = "built"
+	if len(e.h.RC.VerifLoadedBugIds()) == 0 {
+		e.opened = "loaded-from-disk"
+	}
+	e.suspects = nil
+	return nil
+}
+
+func (e *c17Env) requests() int64 {
+	if e.h == nil {
+		return 0
+	}
+	return atomic.LoadInt64(&e.h.Requests)
+}
+
+// abandon gives up an environment in which a request never returned: closing the cache would block as well.
+// The directory stays until the child exits (the blocked goroutines still refer to it).
+func (e *c17Env) abandon() {
+	e.rep.Cache, e.rep.Repo = nil, nil
+	c17Abandoned = append(c17Abandoned, e.w.Dir)
+}
+
+var c17Abandoned []string
+
 func (e *c17Env) token() string {
 	e.tokenSeq++
 	return fmt.Sprintf("tk%dx%d", os.Getpid()%10000, e.tokenSeq)
@@ -138,11 +212,52 @@ type c17Snap struct {
 	CacheIdentIds []string
 	CacheExcerpts map[string]string
 	CacheOps      map[string][]string // bug id -> op ids of the cache's snapshot
+	Light         bool                // CacheOps only holds the bugs that were in memory already
+}
+
+// c17BugInfo is what the request builder needs to know about a bug, read from the git data.
+type c17BugInfo struct {
+	Title    string
+	Labels   []string
+	Comments [][2]string // combined id, id of the operation that created the comment
+}
+
+// bugInfo reads a bug from git (not via the cache: building a request must not load anything into it).
+func (e *c17Env) bugInfo(id string) (*c17BugInfo, error) {
+	head := ""
+	if e.snap != nil {
+		head = e.snap.Refs["refs/bugs/"+id]
+	}
+	if bi, ok := e.infoMemo[head]; ok && head != "" {
+		return bi, nil
+	}
+	b, err := world.ReadBug(e.rep.Repo, entity.Id(id))
+	if err != nil {
+		return nil, err
+	}
+	snap := b.Compile()
+	bi := &c17BugInfo{Title: snap.Title}
+	for _, l := range snap.Labels {
+		bi.Labels = append(bi.Labels, string(l))
+	}
+	for _, cm := range snap.Comments {
+		bi.Comments = append(bi.Comments, [2]string{cm.CombinedId().String(), cm.TargetId().String()})
+	}
+	if head != "" {
+		e.infoMemo[head] = bi
+	}
+	return bi, nil
 }
 
 func (e *c17Env) snapshot() (*c17Snap, error) {
-	s := &c17Snap{Objects: map[string]bool{}, GitOps: map[string][]string{}, CacheExcerpts: map[string]string{}, CacheOps: map[string][]string{}}
+	s := &c17Snap{Objects: map[string]bool{}, GitOps: map[string][]string{}, CacheExcerpts: map[string]string{}, CacheOps: map[string][]string{}, Light: e.light}
 	var err error
+	inMemory := map[entity.Id]bool{}
+	if e.light {
+		for _, id := range e.h.RC.VerifLoadedBugIds() {
+			inMemory[id] = true
+		}
+	}
 	if s.Refs, err = gitraw.RefTable(e.rep.Repo, "refs/"); err != nil {
 		return nil, fmt.Errorf("ref table: %w", err)
 	}
@@ -185,6 +300,9 @@ func (e *c17Env) snapshot() (*c17Snap, error) {
 			s.CacheExcerpts[id.String()] = string(b)
 		} else {
 			s.CacheExcerpts[id.String()] = "!" + err.Error()
+		}
+		if e.light && !inMemory[id] {
+			continue
 		}
 		if bc, err := e.h.RC.Bugs().Resolve(id); err == nil {
 			s.CacheOps[id.String()] = world.DagOpIds(bc.Snapshot().Operations)
@@ -242,27 +360,32 @@ func c17Diff(a, b *c17Snap) map[string]string {
 		}
 		out["objects"] = strings.Join(objd, " ")
 	}
-	cmpOps := func(x, y map[string][]string) string {
+	cmpOps := func(x, y map[string][]string, commonOnly bool) string {
 		var d []string
 		for k, v := range x {
 			if w, ok := y[k]; !ok {
-				d = append(d, "bug "+k[:7]+" gone")
+				if !commonOnly {
+					d = append(d, "bug "+k[:7]+" gone")
+				}
 			} else if !sameStrings(v, w) {
 				d = append(d, fmt.Sprintf("bug %s: %d -> %d operations", k[:7], len(v), len(w)))
 			}
 		}
 		for k := range y {
-			if _, ok := x[k]; !ok {
+			if _, ok := x[k]; !ok && !commonOnly {
 				d = append(d, "bug "+k[:7]+" appeared")
 			}
 		}
 		sort.Strings(d)
 		return strings.Join(d, ", ")
 	}
-	if d := cmpOps(a.GitOps, b.GitOps); d != "" {
+	if d := cmpOps(a.GitOps, b.GitOps, false); d != "" {
 		out["git-ops"] = d
 	}
-	if d := cmpOps(a.CacheOps, b.CacheOps); d != "" {
+	// a light snapshot lists the operations of the bugs that were in memory only: which bugs are in memory is
+	// not part of the repository's state, so only bugs present on both sides are compared (the set of bugs the
+	// cache knows is compared through cache-ids)
+	if d := cmpOps(a.CacheOps, b.CacheOps, a.Light || b.Light); d != "" {
 		out["cache-ops"] = d
 	}
 	if !sameStrings(a.CacheBugIds, b.CacheBugIds) || !sameStrings(a.CacheIdentIds, b.CacheIdentIds) {
